@@ -34,13 +34,15 @@ Proof.
             eexists; split; [reflexivity|]; unfold quiet, set_stack; cbn; repeat split; auto; fail).
   all: try (rewrite Hd; rewrite flag_stage_quiet by exact Hf; eexists; split; [reflexivity|]; unfold quiet; repeat split; auto; fail).
   - (* else *)
-    unfold resolve_roe. rewrite Hr. unfold block_alt_case. rewrite Hb. cbn [r_del]. rewrite Hd.
+    assert (E : match r_stack st with [] => (st, f) | k :: _ => resolve_roe k st f end = (st, f)).
+    { destruct (r_stack st); [reflexivity|]. unfold resolve_roe. rewrite Hr. reflexivity. }
+    rewrite E. unfold block_alt_case. rewrite Hb. cbn [r_del]. rewrite Hd.
     rewrite flag_stage_quiet by exact Hf. eexists; split; [reflexivity|]. unfold quiet; cbn; repeat split; auto.
   - (* end *)
     destruct (r_stack st) as [|b rest] eqn:Es.
     + rewrite flag_stage_quiet by exact Hf. eexists; split; [reflexivity|]. unfold quiet; repeat split; auto.
     + cbn [set_stack r_del]. rewrite Hd. unfold resolve_roe. cbn [r_roe set_stack]. rewrite Hr.
-      cbn [r_ron]. rewrite Hn. cbn [ron_get].
+      cbn [ron_get]. cbn [r_ron set_stack]. rewrite ?Hn. cbn [ron_get].
       rewrite flag_stage_quiet by exact Hf. eexists; split; [reflexivity|]. unfold quiet; cbn; repeat split; auto.
 Qed.
 
